@@ -22,6 +22,7 @@ type slrun struct {
 	uni      []*hkey
 	fill     []*hkey
 	probes   []starlark.Value // every key of the id space, for membership / lookup checks
+	probeIDs []int32
 	poisoned map[int]bool
 	executed int
 	nviews   int
@@ -63,7 +64,7 @@ func valMatch(v starlark.Value, want int32) bool {
 }
 
 func (p *slrun) violate(e *sexp, key, format string, args ...any) {
-	if e.coll || e.binds || e.opkey == "" {
+	if e.coll || e.binds || e.opkey == "" || e.alias != "" {
 		// the collection itself differs from the model: what follows in this sequence would only repeat it
 		p.poisoned[e.seq] = true
 	}
@@ -115,8 +116,9 @@ func (p *slrun) matchColl(v starlark.Value, order, vals []int32, wantKind int) (
 	for i, id := range order {
 		want[id] = vals[i]
 	}
-	for id, k := range p.probes {
-		wv, whas := want[int32(id)]
+	for pi, k := range p.probes {
+		id := p.probeIDs[pi]
+		wv, whas := want[id]
 		switch c := v.(type) {
 		case *starlark.Dict:
 			got, found, err := c.Get(k)
@@ -262,7 +264,9 @@ func (p *slrun) check(th *starlark.Thread, b *starlark.Builtin, args starlark.Tu
 	kname := kindName[p.g.kind]
 	if len(args) > 2 {
 		if ok, same, msg := p.matchRes(args[2], &e.res); !ok {
-			if e.opkey != "" {
+			if e.alias != "" {
+				p.violate(e, "C12 alias "+e.alias, "%s", msg)
+			} else if e.opkey != "" {
 				p.violate(e, derivedKey(e, same), "%s", msg)
 			} else {
 				p.violate(e, "C12 starlark "+kname+" return", "%s", msg)
@@ -272,11 +276,58 @@ func (p *slrun) check(th *starlark.Thread, b *starlark.Builtin, args starlark.Tu
 	}
 	if e.coll {
 		if aspect, msg := p.matchColl(args[1], e.order, e.vals, p.g.kind); aspect != "" {
-			p.violate(e, "C12 starlark "+kname+" "+aspect, "%s", msg)
+			if e.alias != "" {
+				p.violate(e, "C12 alias "+e.alias, "a collection changed through another name (or did not change through its own): %s: %s", aspect, msg)
+			} else {
+				p.violate(e, "C12 starlark "+kname+" "+aspect, "%s", msg)
+			}
 			return p.after(e)
 		}
 	}
 	return p.after(e)
+}
+
+// distinct(i, z, x, y): a derived collection must be a new object, not one of its operands.
+func (p *slrun) distinct(th *starlark.Thread, b *starlark.Builtin, args starlark.Tuple, kwargs []starlark.Tuple) (starlark.Value, error) {
+	e := p.expectation(args)
+	if e == nil {
+		return nil, fmt.Errorf("distinct: bad call")
+	}
+	if p.poisoned[e.seq] {
+		return nil, errAbandon
+	}
+	for _, o := range args[2:] {
+		if args[1] == o {
+			p.violate(e, "C12 alias "+e.alias, "the result is the very object of an operand, not a new collection")
+			p.poisoned[e.seq] = true
+			return nil, errAbandon
+		}
+	}
+	return starlark.None, nil
+}
+
+func (p *slrun) freeze(th *starlark.Thread, b *starlark.Builtin, args starlark.Tuple, kwargs []starlark.Tuple) (starlark.Value, error) {
+	for _, a := range args {
+		a.Freeze()
+	}
+	return starlark.None, nil
+}
+
+// succeeds(i, fn): fn() must not fail (a derived collection stays mutable when its operands are frozen).
+func (p *slrun) succeeds(th *starlark.Thread, b *starlark.Builtin, args starlark.Tuple, kwargs []starlark.Tuple) (starlark.Value, error) {
+	e := p.expectation(args)
+	if e == nil {
+		return nil, fmt.Errorf("succeeds: bad call")
+	}
+	if p.poisoned[e.seq] {
+		return nil, errAbandon
+	}
+	if _, err := starlark.Call(th, args[1], nil, nil); err != nil {
+		p.violate(e, "C12 alias "+e.alias, "mutation of the derived collection failed after its operands were frozen: %v", err)
+		p.poisoned[e.seq] = true
+		return nil, errAbandon
+	}
+	return starlark.None, nil
 }
 
 // views(i, keyview[, itemview]): the collection as seen by Starlark-level iteration.
@@ -296,7 +347,11 @@ func (p *slrun) views(th *starlark.Thread, b *starlark.Builtin, args starlark.Tu
 	kname := kindName[p.g.kind]
 	ids, _ := p.seqIDs(args[1], len(e.order)+8)
 	if !idsEqual(ids, e.order) {
-		p.violate(e, "C12 starlark "+kname+" order", "Starlark-level iteration %s, model %s", fmtIDs(ids), fmtIDs(e.order))
+		key := "C12 starlark " + kname + " order"
+		if e.alias != "" {
+			key = "C12 alias " + e.alias
+		}
+		p.violate(e, key, "Starlark-level iteration %s, model %s", fmtIDs(ids), fmtIDs(e.order))
 		return p.after(e)
 	}
 	if len(args) > 2 { // Starlark-level view of the items
@@ -328,7 +383,7 @@ func (p *slrun) fails(th *starlark.Thread, b *starlark.Builtin, args starlark.Tu
 		return p.after(e)
 	}
 	if aspect, msg := p.matchColl(args[1], e.order, e.vals, p.g.kind); aspect != "" {
-		p.violate(e, "C12 starlark "+kname+" "+aspect, "after failed call: %s", msg)
+		p.violate(e, "C12 starlark "+kname+" "+aspect, "after failed call: %s: %s", aspect, msg)
 	}
 	return p.after(e)
 }
@@ -376,11 +431,21 @@ func (p *slrun) exec() {
 		p.probes = append(p.probes, k)
 	}
 	p.probes = append(p.probes, starlark.String("zz"), starlark.String("yy"))
+	kx := &hkey{id: idKX, h: p.uni[0].h, name: "KX"}
+	env["kx"] = kx
+	env["distinct"] = starlark.NewBuiltin("distinct", p.distinct)
+	env["freeze"] = starlark.NewBuiltin("freeze", p.freeze)
+	env["succeeds"] = starlark.NewBuiltin("succeeds", p.succeeds)
 	var pairs, keys []starlark.Value
 	for j, k := range p.fill {
 		p.probes = append(p.probes, k)
 		pairs = append(pairs, starlark.Tuple{k, starlark.MakeInt(9000 + j)})
 		keys = append(keys, k)
+	}
+	p.probes = append(p.probes, kx)
+	p.probeIDs = p.probeIDs[:0]
+	for _, k := range p.probes {
+		p.probeIDs = append(p.probeIDs, p.id(k))
 	}
 	env["PRE"] = starlark.NewList(pairs)
 	env["PREK"] = starlark.NewList(keys)
